@@ -1,3 +1,4 @@
+import re
 """C01 — no out-of-bounds access, undefined behaviour or hang on any input stream."""
 from sa import cfg as C
 from sa import paths as P
@@ -188,6 +189,42 @@ def rule_l3_l4(ck, prog, S, model, r3="C01-L3", r4="C01-L4"):
     ck.floor(r3, 10)
 
 
+def _under_expression_test(prog, S, f, node):
+    """node is reached only after the token class was compared equal to PROGRAM_EXPRESSION (which guarantees `(`..`)`, len >= 2)"""
+    facts = K.facts_at(S, f, node) or []
+    expr = prog.enumconst.get("SCPI_TOKEN_PROGRAM_EXPRESSION")
+    dom = any(not isinstance(pol, tuple) and a.k == "BinaryOperator" and
+              ((a.get("op") == "==" and pol) or (a.get("op") == "!=" and not pol)) and
+              C.const_of(a.child(1)) == expr for a, pol in facts)
+    # or an early return on type != EXPRESSION
+    if not dom:
+        pg = S.pg(f)
+        for p_, es in pg.out.items():
+            for e in es:
+                if e.kind == "edge" and e.label[0] in ("true", "false") and e.label[1] is not None:
+                    a = e.label[1]
+                    if a.k == "BinaryOperator" and a.get("op") in ("!=", "==") and C.const_of(a.child(1)) == expr:
+                        bad_edge_true = (a["op"] == "!=")
+                        # the node must be unreachable from the 'not an expression' edge
+                        if (e.label[0] == "true") == bad_edge_true:
+                            r = pg.reachable([e.dst])
+                            if pg.before(node) not in r:
+                                dom = True
+    return dom
+
+
+def _address_taken(prog, name):
+    for g in prog.functions.values():
+        for n in g.nodes.values():
+            if n.k == "DeclRefExpr" and n.get("decl", {}).get("kind") == "function" and n["decl"].get("name") == name:
+                par = g.parent.get(n.id)
+                while par is not None and par.k in ("ImplicitCastExpr", "ParenExpr"):
+                    par = g.parent.get(par.id)
+                if par is None or par.k != "CallExpr" or par.get("callee") != name:
+                    return True
+    return False
+
+
 # ---- L5 construction ------------------------------------------------------------------------
 def rule_l5(ck, prog, S, model):
     n = 0
@@ -238,28 +275,20 @@ def rule_l5(ck, prog, S, model):
                 continue
             if adj_b or adj_l:
                 # interior view (expression body): needs len >= adj_l; dominated by the EXPRESSION class test
-                facts = K.facts_at(S, f, lens[0]) or []
-                expr = prog.enumconst.get("SCPI_TOKEN_PROGRAM_EXPRESSION")
-                dom = any(not isinstance(pol, tuple) and a.k == "BinaryOperator" and
-                          ((a.get("op") == "==" and pol) or (a.get("op") == "!=" and not pol)) and
-                          C.const_of(a.child(1)) == expr for a, pol in facts)
-                # or an early return on type != EXPRESSION
+                dom = _under_expression_test(prog, S, f, lens[0])
+                via = ""
                 if not dom:
-                    pg = S.pg(f)
-                    for p_, es in pg.out.items():
-                        for e in es:
-                            if e.kind == "edge" and e.label[0] in ("true", "false") and e.label[1] is not None:
-                                a = e.label[1]
-                                if a.k == "BinaryOperator" and a.get("op") in ("!=", "==") and C.const_of(a.child(1)) == expr:
-                                    bad_edge_true = (a["op"] == "!=")
-                                    # the store must be unreachable from the 'not an expression' edge
-                                    if (e.label[0] == "true") == bad_edge_true:
-                                        r = pg.reachable([e.dst])
-                                        if pg.before(lens[0]) not in r:
-                                            dom = True
+                    # a file-local helper that builds the view from its parameter: the guarantee is owed by every call site
+                    params = [p["name"] for p in f.params]
+                    root = re.split(r"[.\-\[]", bp or "")[0]
+                    sites_ = list(prog.callers(f.name))
+                    if root in params and sites_ and not _address_taken(prog, f.name) and \
+                            all(_under_expression_test(prog, S, g, c) for g, c in sites_):
+                        dom = True
+                        via = " at each of its %d call sites (%s)" % (len(sites_), ", ".join(sorted({g.name for g, _ in sites_})))
                 if dom and adj_l == 2 * adj_b and adj_b == 1:
                     ck.holds("C01-L5", st, K.loc(f, bufs[0]), "interior of a parenthesised expression (ptr+1, len-2) under the "
-                             "EXPRESSION class test (len >= 2)")
+                             "EXPRESSION class test (len >= 2)" + via)
                 else:
                     ck.violated("C01-L5", st, K.loc(f, bufs[0]),
                                 "cursor %s is (%s + %d, %s - %d) without the token-class test that guarantees the length"
